@@ -117,3 +117,28 @@ pub proof fn lemma_ratio_vs_one(a: nat, b: nat)
         assert(E18() * b > a * E18()) by(nonlinear_arith) requires a < b;
     }
 }
+/// dividing by a rate <= 1 never shrinks: floor(p*1e18/r) >= p for 0 < r <= 1e18
+pub proof fn lemma_ratio_ge_when_rate_le_one(p: nat, r: nat)
+    requires 0 < r <= E18()
+    ensures ratio_floor(p, r) >= p
+{
+    lemma_ratio_bounds(p, r);
+    let q = ratio_floor(p, r);
+    if q < p {
+        assert((q + 1) * r <= p * r) by(nonlinear_arith) requires q + 1 <= p;
+        assert(p * r <= p * E18()) by(nonlinear_arith) requires r <= E18();
+    }
+}
+/// dividing by a rate >= 1 never grows: floor(p*1e18/r) <= p for r >= 1e18
+pub proof fn lemma_ratio_le_when_rate_ge_one(p: nat, r: nat)
+    requires r >= E18()
+    ensures ratio_floor(p, r) <= p
+{
+    lemma_ratio_bounds(p, r);
+    let q = ratio_floor(p, r);
+    if q > p {
+        assert(q * r >= (p + 1) * r) by(nonlinear_arith) requires q >= p + 1;
+        assert((p + 1) * r > p * E18()) by(nonlinear_arith) requires r >= E18();
+    }
+}
+pub open spec fn min_nat(a: nat, b: nat) -> nat { if a <= b { a } else { b } }
